@@ -1,5 +1,7 @@
 """C14 — PlantUML source shows each member vertex and each internal link once, oriented."""
-from ..engine import Prop
+import re
+
+from ..engine import Prop, Leg
 from .. import structh as H
 from .. import renderh as R
 
@@ -29,9 +31,7 @@ class PumlLeg(R.RenderLeg):
     def queries_for(self, rng, u):
         return [["PUML", u, ci] for ci in range(4)]
 
-    def oracle(self, case, obs):
-        if obs is None:
-            return []
+    def phase_oracle(self, case, obs):
         if not obs["unchanged"]:
             return ["render_to_plantuml_src changed the graph"]
         snap = obs["snap"]
@@ -91,9 +91,113 @@ class PumlLeg(R.RenderLeg):
         return any(a == b for a, b in inside) or len(set(inside)) != len(inside)
 
 
+class HierarchyLeg(Leg):
+    """"the options of the nearest configured class in its hierarchy" for class hierarchies the Coq model has no names for:
+    ad-hoc vertex and edge classes with MULTIPLE inheritance; nearest = first configured class in the class's own __mro__
+    (the order Python itself resolves attributes in).  Judged on the implementation; the Gallina term is `true`."""
+    name = "hierarchy"
+    imports = "From EG Require Import Base."
+    checkfn = "(fun b : bool => b)"
+    case_type = "bool"
+    rule = ("random class hierarchies (3-6 vertex classes and 2-4 edge classes over Vertex / DirectedEdge / UnDirectedEdge, single "
+            "and multiple inheritance, diamonds), a random subset configured with distinguishable type keywords, title formats and "
+            "arrow sides; small graphs over instances of all classes; every declaration header and every relation line must carry "
+            "the options of the first configured class in type(x).__mro__; non-trivial = some class has two bases")
+    quick_n = 120
+    thorough_n = 3000
+    TYPES = ["object", "class", "entity", "card", "node", "frame", "queue", "storage"]
+    SIDES = [("", ">"), ("", ""), ("<", ">"), ("o", ">"), ("*", ""), ("x", "x")]
+
+    def generate(self, rng, n):
+        for _ in range(n):
+            nv, ne = rng.randint(3, 6), rng.randint(2, 4)
+            vbases, ebases = [], []
+            for i in range(nv):          # bases by index into the classes created so far; -1 = Vertex
+                k = rng.choice([1, 1, 2, 2, 3]) if i >= 2 else 1
+                vbases.append(sorted(rng.sample(range(-1, i), min(k, i + 1)), reverse=rng.random() < 0.5))
+            for i in range(ne):          # -1 = DirectedEdge, -2 = UnDirectedEdge
+                k = rng.choice([1, 2]) if i >= 2 else 1
+                pool = list(range(i)) + [rng.choice([-1, -2])]
+                ebases.append(rng.sample(pool, min(k, len(pool))))
+            vconf = [rng.random() < 0.5 for _ in range(nv)]
+            econf = [rng.random() < 0.5 for _ in range(ne)]
+            verts = [rng.randrange(nv) for _ in range(rng.randint(2, 6))]
+            edges = [[rng.randrange(ne), rng.randrange(len(verts)), rng.randrange(len(verts))] for _ in range(rng.randint(1, 6))]
+            yield {"vbases": vbases, "ebases": ebases, "vconf": vconf, "econf": econf, "verts": verts, "edges": edges}
+
+    @staticmethod
+    def _classes(bases, roots, prefix):
+        out = []
+        for i, bs in enumerate(bases):
+            try:
+                out.append(type(f"{prefix}{i}", tuple(out[b] if b >= 0 else roots[b] for b in bs), {}))
+            except TypeError:           # no consistent method resolution order for these bases: fall back to the first one
+                b = bs[0]
+                out.append(type(f"{prefix}{i}", (out[b] if b >= 0 else roots[b],), {}))
+        return out
+
+    def observe(self, case):
+        from edgegraph.structure import Vertex, Universe, DirectedEdge, UnDirectedEdge
+        from edgegraph.output import plantuml
+        vcls = self._classes(case["vbases"], {-1: Vertex}, "V")
+        ecls = self._classes(case["ebases"], {-1: DirectedEdge, -2: UnDirectedEdge}, "E")
+        opts = {"skinparams": {}, Vertex: {"type": "object", "show_attrs": ["^nm$"], "title_format": "root_{nm}"},
+                DirectedEdge: {"v1side": "", "v2side": ">"}, UnDirectedEdge: {"v1side": "", "v2side": ""}}
+        for i, c in enumerate(vcls):
+            if case["vconf"][i]:
+                opts[c] = {"type": self.TYPES[1 + i % 7], "show_attrs": ["^nm$"], "title_format": f"c{i}_{{nm}}"}
+        for i, c in enumerate(ecls):
+            if case["econf"][i]:
+                opts[c] = {"v1side": self.SIDES[2 + i % 4][0], "v2side": self.SIDES[2 + i % 4][1]}
+        uni = Universe()
+        vs = []
+        for j, ci in enumerate(case["verts"]):
+            v = vcls[ci](universes=[uni])
+            v.nm = f"n{j}"
+            vs.append(v)
+        es = [ecls[k](vs[a], vs[b]) for k, a, b in case["edges"]]
+
+        def vopt(v):
+            return next(opts[c] for c in type(v).__mro__ if c in opts)
+
+        def title(v):
+            return vopt(v)["title_format"].format(nm=v.nm)
+        exp_decl = [[vopt(v)["type"], title(v), type(v).__name__] for v in vs]
+        exp_rel = sorted(f"{title(e.v1)} {o['v1side']}--{o['v2side']} {title(e.v2)}"
+                         for e in es for o in [next(opts[c] for c in type(e).__mro__ if c in opts)])
+        try:
+            src = plantuml.render_to_plantuml_src(uni, opts)
+        except Exception as e:  # noqa: BLE001
+            return {"raise": type(e).__name__, "exp_decl": exp_decl, "exp_rel": exp_rel}
+        decl, rel = [], []
+        for line in (src or "").split("\n"):
+            m = R.DECL.match(line)
+            if m:
+                decl.append([m.group(1), m.group(2), m.group(3)])
+            elif re.match(r"^\S+ \S*--\S* \S+$", line):
+                rel.append(line)
+        return {"decl": decl, "rel": sorted(rel), "exp_decl": exp_decl, "exp_rel": exp_rel,
+                "multi": any(len(c.__bases__) > 1 for c in vcls + ecls)}
+
+    def oracle(self, case, obs):
+        if "raise" in obs:
+            return [f"render_to_plantuml_src raised {obs['raise']} although Vertex and both edge classes are configured"]
+        if obs["decl"] != obs["exp_decl"]:
+            return [f"declarations {obs['decl']}; by the classes' own MRO they are {obs['exp_decl']}"]
+        if obs["rel"] != obs["exp_rel"]:
+            return [f"relation lines {obs['rel']}; by the classes' own MRO they are {obs['exp_rel']}"]
+        return []
+
+    def term(self, case, obs):
+        return "true"
+
+    def nontrivial(self, case, obs):
+        return bool(obs.get("multi"))
+
+
 class C14(Prop):
     pid = "C14"
-    legs = [PumlLeg()]
+    legs = [PumlLeg(), HierarchyLeg()]
     assumptions = ["titles use the `$id` format (canonicalised to ids); str.format / dir() / regex-selected attribute lines are "
                    "produced by Python and not modelled", "configured classes are made visible in the text by distinct `type` "
                    "keywords and arrow sides in the harness's option tables"]
